@@ -76,6 +76,35 @@ class C18(Prop):
         if ctx.model_ok:
             model = ctx.run_model(lines)
             ctx.compare("app-bert", lines, impl, model, oracle=lambda ln, a: None, sig=lambda ln: "frames")
+        # the whole receive path of a BERT transmission: specification-encoded frames cut from the sequence -> the real frame decoder (one decoder
+        # object for the whole run, so anything left behind by the previous frame is in play) -> the bytes its callback delivers -> decode_bert
+        fec = self.impl_driver(ctx)
+        for phase in ([3, 200] if quick else [3, 77, 200, 305, 444, 510]):
+            nfr = 70 if quick else 600
+            dl, payloads = ["dec_new"], []
+            for k in range(nfr):
+                bits = [seq[(phase + 197 * k + i) % 511] for i in range(197)]
+                payloads.append(list(S.pack(bits)))
+                dl.append("dec_frame 3 1 " + " ".join(map(str, S.soft(S.bert_frame_bits(bits), rng.choice([7, 7, 3, 1])))))
+            rep = ctx.run_impl(fec, dl, "bert-path")[1:]
+            got = []
+            from lib import decgen
+            for k, a in enumerate(rep):
+                r = decgen.parse_reply(a)
+                ctx.evaluations += 1
+                b = r["calls"][0]["bytes"] if r and r["calls"] and r["calls"][0]["type"] == 5 else None
+                if b != payloads[k]:
+                    ctx.violate("bert-path:payload", f"clean BERT frame {k} of a run (phase {phase}): the decoder delivered {b[-3:] if b else b} as its last bytes, "
+                                f"the transmitted payload ends {payloads[k][-3:]} (25 bytes, last three bits zero)",
+                                {"stream": "bert-path", "ops": dl[:k + 2][-4:], "impl": a})
+                    break
+                got += b
+            else:
+                o = ctx.run_impl(demod, ["app_bert " + " ".join(map(str, got))], "app-bert")[0].split()
+                ctx.count(("bert-path", phase, nfr), nontrivial=True)
+                if len(o) == 3 and (o[0] != "1" or o[1] != "0"):
+                    ctx.violate("bert-path:errors", f"{nfr} clean BERT frames (phase {phase}) through decoder and decode_bert: sync={o[0]} errors={o[1]} bits={o[2]}",
+                                {"stream": "bert-path", "ops": dl[:3]})
 
     def run(self, ctx):
         exe = self.impl_driver(ctx)
